@@ -64,9 +64,9 @@ class CCodeMapper(SimplifyingSortingStringifyMapper):
         >>> for name, value in ccm.cse_name_list:
         ...     print("%s = %s;" % (name, value))
         ...
-        _cse_u = 3 * x * x + -5;
+        _cse_u = 3 * (x * x) + -5;
         >>> print(result)
-        _cse_u / (_cse_u + 3) * (_cse_u + 5)
+        (_cse_u / (_cse_u + 3)) * (_cse_u + 5)
 
     See :class:`pymbolic.mapper.stringifier.CSESplittingStringifyMapperMixin`
     for the ``cse_*`` attributes.
